@@ -10,7 +10,7 @@ import z3
 
 from pyvc import specz3
 from pyvc.sym import (I, B, A, A2, iv, add, sub, lit, fresh, fresh_seq, Seq, Tup, Mat, Row, Obj, FloatV, NONE, NoneV, const_str,
-                      const_list, seq_eq)
+                      const_list, seq_eq, const_mat)
 
 Z3_TIMEOUT_MS = int(os.environ.get("PYVC_Z3_TIMEOUT_MS", "20000"))
 CVC5_TIMEOUT_S = int(os.environ.get("PYVC_CVC5_TIMEOUT_S", "40"))
@@ -219,6 +219,16 @@ class Exec:
             return st.env[e.id]
         if e.id in ("str", "int", "list", "bool"):
             return ("type", e.id)
+        mod_value = self.registry.module_level(self.qualname if not self.c.get("function") else self.c["function"], e.id)
+        if mod_value is not None:
+            kind, node = mod_value
+            if kind == "constant":
+                return self.ev(node, st)
+            # C20 purity: a call must be a function of its arguments; module-level mutable state is hidden history
+            self.results.append(Result(f"{self.qualname}{self.tag}:purity:reads-module-level-mutable-state:{e.id}", "failed", "static", 0.0,
+                                       e.lineno, f"`{e.id}` is a module-level object assigned at line {node.lineno}; the result of the call depends on state "
+                                                 "that earlier calls can change"))
+            self.fatal = True
         raise Unsupported(f"name {e.id} is not bound (line {e.lineno})")
 
     def ev_Tuple(self, e, st):
@@ -237,6 +247,14 @@ class Exec:
     def ev_UnaryOp(self, e, st):
         v = self.ev(e.operand, st)
         if isinstance(e.op, ast.USub):
+            if isinstance(v, Mat) and getattr(v, "const_fill", None) is not None:
+                m = const_mat(-v.const_fill, v.rows, v.cols)
+                m.const_fill = -v.const_fill
+                return m
+            if isinstance(v, Seq) and getattr(v, "const_fill", None) is not None:
+                out = Seq(v.kind, v.elem, z3.K(I, iv(-v.const_fill)), v.n, dtype=v.dtype)
+                out.const_fill = -v.const_fill
+                return out
             return -toint(v)
         if isinstance(e.op, ast.Not):
             return z3.Not(tobool(v))
@@ -503,12 +521,7 @@ class Exec:
                 return base.at(r_, c_)
             r_ = toint(self.ev(sl, st))
             self.index_ok(st, r_, base.rows, line)
-            name = base_expr.id if isinstance(base_expr, ast.Name) else None
-            return Row(name, base, r_)
-        if isinstance(base, Row):
-            c_ = toint(self.ev(sl, st))
-            self.index_ok(st, c_, base.n, line)
-            return base.at(c_)
+            return base.row(r_)
         if z3.is_expr(base) and z3.is_array(base):        # raw array value (lemma language)
             return base[toint(self.ev(sl, st))]
         if not isinstance(base, Seq):
@@ -533,10 +546,8 @@ class Exec:
         return base.at(j)
 
     def index_ok(self, st, j, n, line):
-        self.may_raise(st, "IndexError", z3.Or(j < -n, j >= n), f"index:{self.ordinal('idx')}", line)
-        if lit(j) is None or lit(j) < 0:
-            st.assume(j >= 0)      # negative numpy indices are not modelled: obligation below keeps this sound
-            self.prove(st, f"index-nonnegative:{self.ordinal('idxnn')}", j >= 0, line)
+        """numpy index into an axis of length n; negative (wrap-around) indices are not modelled: they are an obligation."""
+        self.may_raise(st, "IndexError", z3.Or(j < 0, j >= n), f"index:{self.ordinal('idx')}", line)
 
     def clip(self, n, x):
         lx = lit(x)
